@@ -220,7 +220,7 @@ def check_arm(rnd):
         elif k["mn"] in ("bx", "blx"):
             m = re.match(r"(bx|blx)\s+(\w+)", l)
             ok = bool(m) and m.group(1) == k["mn"] and regs.get(m.group(2)) == k["rm"]
-        elif k["mn"] == "nop":
+        elif k["mn"] in ("nop", "nop_hint"):
             ok = l.startswith("nop") or l.startswith("mov\tr8, r8") or re.match(r"mov\s+r8, r8", l) is not None
         elif k["mn"] == "mov_reg":
             m = re.match(r"mov\s+(\w+), (\w+)", l)
